@@ -12,7 +12,12 @@ for _p in PENDING:
     NOT_APPLICABLE[_p] = 'not claimed yet: contracts for this property are still being built (see DESIGN.md section 5)'
 
 # conjuncts of each property that no discharged obligation covers (reported in evidence)
-NOT_DECIDED = {}
+NOT_DECIDED = {
+    'C03': ['value of i64 `%` (Ok result of checked_rem is the truncated remainder): no installed SAT/SMT back end proves any fact about it within 15 min; rests on std::i64::checked_rem',
+            'value of i64 `/` is proved only in the thorough tier (harness int_checked_div_value, 150-350 s); the quick tier proves the Ok/Err partition and the error payload',
+            'IEEE-754 arithmetic itself (f_add .. f_pow are uninterpreted): routing, promotion and operand order are proved, the hardware operation is trusted',
+            'lexicographic order of std String comparison is assumed (str_cmp uninterpreted)'],
+}
 
 # which engines a property uses
 USES_KANI = {'C01', 'C03', 'C10'}
